@@ -48,14 +48,23 @@ PRIORITY = [
 ]
 
 
+# Lexical forms outside the letter of the format that the property does not
+# speak about (it fixes no lexical grammar): a reader that takes them with
+# their obvious meaning (Python's int() / str.split()) still "denotes exactly
+# the clauses written in the text".  They are recorded but are not issues.
+LENIENT = {'token-underscore', 'token-non-ascii-digit',
+           'separator-not-ascii-whitespace'}
+
+
 class Parse:
-    __slots__ = ('n', 'm', 'clauses', 'issues')
+    __slots__ = ('n', 'm', 'clauses', 'issues', 'lenient')
 
     def __init__(self):
         self.n = None
         self.m = None
         self.clauses = []
         self.issues = []
+        self.lenient = []
 
     @property
     def ok(self):
@@ -68,7 +77,10 @@ class Parse:
         return None
 
     def note(self, issue):
-        if issue not in self.issues:
+        if issue in LENIENT:
+            if issue not in self.lenient:
+                self.lenient.append(issue)
+        elif issue not in self.issues:
             self.issues.append(issue)
 
 
